@@ -864,6 +864,7 @@ def _analyze_directory_for_import(root, project, schema):
 
     # Determine the data space mapping from directories at root to project jobs.
     jobs = set()
+    mappings = []
     for src, job in _crawl_directory_data_space(root, project, schema_function):
         if job in jobs:
             raise StatepointParsingError(
@@ -871,8 +872,12 @@ def _analyze_directory_for_import(root, project, schema):
             )
         else:
             jobs.add(job)
-            copy_executor = _CopyFromDirectoryExecutor(src, job)
-            yield src, copy_executor
+            mappings.append((src, job))
+
+    # Like for archives, nothing is copied before the whole data space is analyzed.
+    for src, job in mappings:
+        copy_executor = _CopyFromDirectoryExecutor(src, job)
+        yield src, copy_executor
 
 
 class _CopyFromZipFileExecutor:
